@@ -140,7 +140,7 @@ static Result judge_grow(const Case& c) {
   va::reset_counters(); use_va();
   cbor_item_t* cont = kind == K_INDEFARR ? cbor_new_indefinite_array() : kind == K_INDEFMAP ? cbor_new_indefinite_map() : kind == K_BSTR ? cbor_new_indefinite_bytestring() : cbor_new_indefinite_string();
   std::vector<cbor_item_t*> model;
-  uint64_t re0 = va::g.reallocs; size_t prev_alloc = 0; uint64_t refused_calls = 0;
+  size_t prev_alloc = 0; uint64_t growth_requests = 0;   // allocator requests granted inside the insertion calls themselves
   auto fail = [&](const std::string& m) { r.ok = false; if (r.msg.empty()) r.msg = std::string(kname(kind)) + ": " + m; };
   for (size_t i = 0; i < n && r.ok; i++) {
     cbor_item_t* x = fresh_elem(kind, i); bool ok; bool already = false;
@@ -150,13 +150,15 @@ static Result judge_grow(const Case& c) {
     // must stay exactly as it was.
     for (int mode = 0; mode < 2 && !already && r.ok && (n <= 300 || (i & (i - 1)) == 0); mode++) {
       if (mode == 0) va::g.fail_at = (int64_t)va::g.requests; else va::g.fail_from = (int64_t)va::g.requests;
+      uint64_t rq0 = va::g.requests;
       bool okr;
       if (kind == K_INDEFARR) okr = cbor_array_push(cont, x);
       else if (kind == K_INDEFMAP) { struct cbor_pair p{x, x}; okr = cbor_map_add(cont, p); }
       else okr = kind == K_BSTR ? cbor_bytestring_add_chunk(cont, x) : cbor_string_add_chunk(cont, x);
       uint64_t nrefused = va::g.refused_fault; bool refused = nrefused > 0; va::g.refused_fault = 0;
       va::reset_faults();
-      vh::counters["growth_refusal_attempts"] += refused; refused_calls += nrefused;
+      vh::counters["growth_refusal_attempts"] += refused;
+      if (okr) growth_requests += (va::g.requests - rq0) - nrefused;
       if (okr) {
         if (refused && mode == 1) fail("insertion " + std::to_string(i) + " reported success although the allocator refused every request of the growth");
         already = true;   // inserted (no growth needed, or a fallback after one refusal)
@@ -173,10 +175,12 @@ static Result judge_grow(const Case& c) {
       }
     }
     if (!r.ok) break;
+    uint64_t rq1 = va::g.requests;
     if (already) ok = true;
     else if (kind == K_INDEFARR) ok = cbor_array_push(cont, x);
     else if (kind == K_INDEFMAP) { struct cbor_pair p{x, x}; ok = cbor_map_add(cont, p); }
     else ok = kind == K_BSTR ? cbor_bytestring_add_chunk(cont, x) : cbor_string_add_chunk(cont, x);
+    growth_requests += va::g.requests - rq1;
     if (!ok) fail("insertion " + std::to_string(i) + " refused by an indefinite container");
     model.push_back(x);
     size_t size = kind == K_INDEFARR ? cbor_array_size(cont) : kind == K_INDEFMAP ? cbor_map_size(cont) : kind == K_BSTR ? cbor_bytestring_chunk_count(cont) : cbor_string_chunk_count(cont);
@@ -195,9 +199,10 @@ static Result judge_grow(const Case& c) {
       }
     }
   }
-  uint64_t re = va::g.reallocs - re0 - refused_calls;   // granted reallocations only
-  double bound = 4 + 2 * std::ceil(std::log2((double)n + 1));
-  if (r.ok && (double)re > bound) fail(std::to_string(n) + " insertions cost " + std::to_string(re) + " reallocations; a geometric growth policy needs at most " + std::to_string((int)bound));
+  // every allocator request made by the insertion calls themselves is a growth step (the elements are created outside)
+  uint64_t re = growth_requests;
+  double bound = 8 + 4 * std::ceil(std::log2((double)n + 1));
+  if (r.ok && (double)re > bound) fail(std::to_string(n) + " insertions cost " + std::to_string(re) + " (re)allocations; a geometric growth policy needs at most " + std::to_string((int)bound));
   vh::counters["growth_insertions"] += n; vh::counters["growth_reallocs"] += re;
   for (auto* p : model) { cbor_item_t* q = p; cbor_decref(&q); }
   cbor_decref(&cont);
